@@ -13,7 +13,7 @@ from . import genfaulty, c02, c14
 
 PID = 'C10'
 RULE = ('Hypothesis RuleBasedStateMachine (stateful mode): a loop tree from the context reader (documents of 837P/I 4010+5010, 834, 835, '
-        '271, 278; requested loops 2000A/2000B/2300/2000/2100/...) and a plain-Python mirror; rules = set_value/get_value at paths drawn '
+        '271, 278; requested loops 2000A/2000B/2300/2000/2100/...) and a plain-Python mirror; rules = add_node (copy of a child loop; foreign nodes must be refused) and set_value/get_value at paths drawn '
         'from the mirror (relative loop paths, SEG[qual]NN-k, ../ from a child loop), exists/count/select/first on existing and '
         'non-existing paths, add_segment/add_loop with segments generated for a drawn child node, delete_segment, delete_node, copy() '
         'after which rules address either object, invalid paths. After every step: serialisation of each real tree = its mirror; '
@@ -412,6 +412,45 @@ class Sut(object):
                 new.children.append(s)
             mnode.children.insert(idx, new)
             self.flags.add('edit')
+        elif k == 'add_node':
+            # a copy of one of the loop's child loops (or, 'foreign', of a grandchild / of the loop itself) handed to add_node
+            rkids = [c for c in rnode.children if c.type == 'loop']
+            mkids = [c for c in mnode.children if c.kind == 'loop']
+            if len(rkids) != len(mkids) or not mkids:
+                return
+            j = op['child'] % len(mkids)
+            rsrc, msrc = rkids[j], mkids[j]
+            foreign = False
+            if op.get('foreign'):
+                rg = [c for c in rsrc.children if c.type == 'loop']
+                mg = [c for c in msrc.children if c.kind == 'loop']
+                if rg and len(rg) == len(mg):
+                    rsrc, msrc = rg[0], mg[0]
+                else:
+                    rsrc, msrc = rnode, mnode
+                foreign = True
+            try:
+                new_r = rsrc.copy()
+            except Exception as e:
+                raise Violation('copy-raises', core.exc_detail(e))
+            before = serial_r(self.real[t])
+            try:
+                rnode.add_node(new_r)
+            except Exception as e:
+                if foreign:
+                    if serial_r(self.real[t]) != before:
+                        raise Violation('failed-add-changed-tree', 'add_node(%s) under %s' % (msrc.id, mnode.id))
+                    return
+                raise Violation('add_node-raises', '%s under %s: %s' % (msrc.id, mnode.id, core.exc_detail(e)))
+            if foreign:
+                raise Violation('add_node-accepts-foreign-node', '%s under %s' % (msrc.id, mnode.id))
+            idx = 0
+            for i2, c in enumerate(mnode.children):
+                if c.x.pos <= msrc.x.pos:
+                    idx = i2 + 1
+            mnode.children.insert(idx, mcopy(msrc, mnode))
+            self.flags.add('edit')
+            self.flags.add('add_node')
         elif k == 'copy':
             if len(self.real) >= 2:
                 return
@@ -683,6 +722,16 @@ def make_machine(text, fname, loop_id, which, gen_seed):
             else:
                 self.sut.apply(dict(op='delete_node', t=t, loops=loops + [v.id], seg=None))
             self.add(i=0, t=t, k=k, s=s, asloop=False, near=True)
+
+        @rule(i=st.integers(0, 10 ** 6), t=st.integers(0, 1), j=st.integers(0, 10 ** 6), foreign=st.sampled_from([False, False, False, True]))
+        def add_node(self, i, t, j, foreign):
+            root = self.sut.model[t % len(self.sut.model)]
+            ls = [(root, [])] + [x for x in self._all(t, 'loop') if _is_first_path(root, x)]
+            ls = [x for x in ls if any(c.kind == 'loop' for c in x[0].children)]
+            if not ls:
+                return
+            m, loops = ls[i % len(ls)]
+            self.sut.apply(dict(op='add_node', t=t, start=loops, child=j, foreign=foreign))
 
         @precondition(lambda self: len(self.sut.real) < 2)
         @rule(t=st.integers(0, 0))
